@@ -300,6 +300,7 @@ func checkC08(c *Ctx) *orch.Outcome {
 		"\"always terminates\" is checked as bounded progress: at most 3 requests of the same directory block",
 		"shapes reproducing recorded legacy-era findings (bank-era batches mixing a PEG request with other transactions) run in a tagged scenario and are reported as KNOWN-FINDING",
 		"two chains per run withhold every OPR/SPR record at a snapshot height between 2.0 and 2.0.2 (once in that block only, once also in the block before)",
+		"the workloads of the rule checks (C03, C04, C07, C11-C16; with blocks applied twice and process restarts) are also run with bounded progress as the only oracle",
 	}
 	nJobs, blocks := 16, 130
 	if c.Thorough() {
@@ -340,6 +341,33 @@ func checkC08(c *Ctx) *orch.Outcome {
 		pj, _ := json.Marshal(c08Params{Seed: seed, Blocks: 90, Kinds: []string{k}, Tagged: true})
 		jobs = append(jobs, orch.Job{Kind: "c08.run", Name: fmt.Sprintf("c08-tagged-%s", k), Seed: seed, Params: pj, Timeout: 900})
 	}
+	// the workloads of the rule checks (C03, C07, C11-C16) as a liveness monitor: every era, valid and rule-breaking
+	// traffic of every kind those checks generate, blocks applied twice, process restarts - here only bounded
+	// progress is judged
+	lv := [][]string{{"c03", "c16"}, {"c07", "gaps", "avg-unavailable", "ungraded-snapshot"}, {"c11"}, {"c12", "gaps", "ungraded-snapshot"},
+		{"c13", "avg-unavailable", "c16"}, {"c14", "quiet", "small-ties", "whale-exit"}, {"c15", "quiet"}, {"busy", "c03", "c13"}}
+	nlv := 1
+	if c.Thorough() {
+		nlv = 4
+	}
+	for k := 0; k < nlv; k++ {
+		for i, fs := range lv {
+			seed := c.Seed*10000 + 7000 + int64(k*len(lv)+i)
+			f := append([]string{}, fs...)
+			switch (i + k) % 3 {
+			case 1:
+				f = append(f, "retries")
+			case 2:
+				f = append(f, "restarts")
+			}
+			mp := modelParams{Seed: seed, Profile: "mixed", Late: (i+k)%4 == 3, Features: f, Liveness: true, AlignV20Dev: -1}
+			if fs[0] == "c14" {
+				mp.Upto = 144*3 + 20
+			}
+			pj, _ := json.Marshal(mp)
+			jobs = append(jobs, orch.Job{Kind: "model.run", Name: fmt.Sprintf("c08-model-workload-%d", seed), Seed: seed, Params: pj, Timeout: 1500})
+		}
+	}
 	rs := c.R.Run(jobs)
 	o.Merge(rs)
 	asanReports, asanBlocks := 0, int64(0)
@@ -376,6 +404,7 @@ func checkC08(c *Ctx) *orch.Outcome {
 	o.Evaluations += orch.SumCounter(rs, "hostile_blocks")
 	o.Nontrivial = int64(len(orch.UnionDistinct(rs, "kind_era")))
 	o.Extra["blocks_synced"] = orch.SumCounter(rs, "blocks")
+	o.Extra["blocks_of_rule_check_workloads_applied"] = orch.SumCounter(rs, "blocks_applied")
 	o.Extra["hostile_entries"] = orch.SumCounter(rs, "hostile_entries")
 	o.Extra["pre202_snapshot_blocks_without_records"] = orch.SumCounter(rs, "pre202_snapshot_blocks_without_records")
 	o.Extra["kinds_applied"] = orch.UnionDistinct(rs, "kinds")
